@@ -346,9 +346,9 @@ Lemma WF_mk f b u :
   (forall kd, wf_alist kd (f kd)) -> Forall (fun i => route i = None) b -> WF (mk f b u).
 Proof. intros Hf Hb. split; [intros kd; now rewrite defs_mk | exact Hb]. Qed.
 
-Lemma WF_add_instruction p i : WF p -> WF (add_instruction p i).
+Lemma WF_add_raw p i : WF p -> WF (add_raw p i).
 Proof.
-  intros [Hd Hb]. unfold add_instruction. destruct (route i) as [[kd k]|] eqn:Hr.
+  intros [Hd Hb]. unfold add_raw. destruct (route i) as [[kd k]|] eqn:Hr.
   - split.
     + intros kd'. rewrite defs_set_defs. destruct (kind_eqb_spec kd' kd) as [->|Hne].
       * rewrite defs_set_used. now apply wf_alist_ins.
@@ -357,6 +357,40 @@ Proof.
   - split.
     + intros kd'. rewrite defs_set_body, defs_set_used. apply Hd.
     + cbn [set_body body_mk body set_used mk]. apply Forall_app. split; [exact Hb | now constructor].
+Qed.
+
+Lemma defs_rebuild_used kd p : defs kd (rebuild_used p) = defs kd p.
+Proof. unfold rebuild_used. apply defs_set_used. Qed.
+
+Lemma body_rebuild_used p : body (rebuild_used p) = body p.
+Proof. reflexivity. Qed.
+
+Lemma to_instructions_rebuild_used p : to_instructions (rebuild_used p) = to_instructions p.
+Proof. reflexivity. Qed.
+
+Lemma used_rebuild_used p : used (rebuild_used p) = flat_map gq (to_instructions p).
+Proof. reflexivity. Qed.
+
+Lemma WF_same p q : (forall kd, defs kd q = defs kd p) -> body q = body p -> WF p -> WF q.
+Proof. intros Hd Hb [H1 H2]. split; [intros kd; rewrite Hd; apply H1 | now rewrite Hb]. Qed.
+
+Lemma WF_rebuild_used p : WF p -> WF (rebuild_used p).
+Proof. apply WF_same; [intros kd; apply defs_rebuild_used | reflexivity]. Qed.
+
+Lemma defs_add_instruction_raw kd p i : defs kd (add_instruction p i) = defs kd (add_raw p i).
+Proof. unfold add_instruction. destruct (replaces_cal p i); [apply defs_rebuild_used | reflexivity]. Qed.
+
+Lemma body_add_instruction_raw p i : body (add_instruction p i) = body (add_raw p i).
+Proof. unfold add_instruction. destruct (replaces_cal p i); reflexivity. Qed.
+
+Lemma to_instructions_add_instruction_raw p i :
+  to_instructions (add_instruction p i) = to_instructions (add_raw p i).
+Proof. unfold add_instruction. destruct (replaces_cal p i); reflexivity. Qed.
+
+Lemma WF_add_instruction p i : WF p -> WF (add_instruction p i).
+Proof.
+  intros Hp. apply (WF_same (add_raw p i));
+    [intros kd; apply defs_add_instruction_raw | apply body_add_instruction_raw | now apply WF_add_raw].
 Qed.
 
 Lemma WF_add_instructions is : forall p, WF p -> WF (add_instructions p is).
@@ -385,7 +419,8 @@ Proof. unfold add_instructions. apply fold_left_app. Qed.
 Lemma defs_add_instruction kd p i :
   defs kd (add_instruction p i) = extend (defs kd p) (sel kd [i]).
 Proof.
-  unfold add_instruction, sel. cbn [flat_map]. rewrite app_nil_r.
+  rewrite defs_add_instruction_raw.
+  unfold add_raw, sel. cbn [flat_map]. rewrite app_nil_r.
   destruct (route i) as [[kd' k]|] eqn:Hr.
   - rewrite defs_set_defs, defs_set_used. rewrite defs_set_used.
     destruct (kind_eqb_spec kd kd') as [->|Hne].
@@ -397,15 +432,23 @@ Qed.
 Lemma body_add_instruction p i :
   body (add_instruction p i) = body p ++ filter is_body [i].
 Proof.
-  unfold add_instruction, is_body. cbn [filter].
+  rewrite body_add_instruction_raw.
+  unfold add_raw, is_body. cbn [filter].
   destruct (route i) as [[kd' k]|] eqn:Hr; cbn [body set_defs set_body set_used mk].
   - now rewrite app_nil_r.
   - reflexivity.
 Qed.
 
-Lemma used_add_instruction p i : used (add_instruction p i) = used p ++ gq i.
+Lemma used_add_raw p i : used (add_raw p i) = used p ++ gq i.
+Proof. unfold add_raw. destruct (route i) as [[kd' k]|]; reflexivity. Qed.
+
+(** the cache after one addition: extended, or rebuilt from the listing if a calibration was replaced *)
+Lemma used_add_instruction p i :
+  used (add_instruction p i) =
+  if replaces_cal p i then listing_gq (to_instructions (add_instruction p i)) else used p ++ gq i.
 Proof.
-  unfold add_instruction. destruct (route i) as [[kd' k]|]; reflexivity.
+  rewrite to_instructions_add_instruction_raw. unfold add_instruction.
+  destruct (replaces_cal p i); [reflexivity | apply used_add_raw].
 Qed.
 
 Lemma defs_add_instructions kd is : forall p,
@@ -427,59 +470,80 @@ Proof.
     rewrite filter_app. now rewrite app_assoc.
 Qed.
 
-Lemma used_add_instructions is : forall p,
-  used (add_instructions p is) = used p ++ flat_map gq is.
-Proof.
-  induction is as [|i t IH]; intros p.
-  - cbn. now rewrite app_nil_r.
-  - change (i :: t) with ([i] ++ t). rewrite add_instructions_app, IH.
-    change (add_instructions p [i]) with (add_instruction p i). rewrite used_add_instruction.
-    cbn [flat_map app]. now rewrite app_assoc.
-Qed.
-
 Lemma defs_from kd is : defs kd (from_instructions is) = build (sel kd is).
 Proof. unfold from_instructions. rewrite defs_add_instructions. now destruct kd. Qed.
 
 Lemma body_from is : body (from_instructions is) = filter is_body is.
 Proof. unfold from_instructions. now rewrite body_add_instructions. Qed.
 
-Lemma used_from is : used (from_instructions is) = flat_map gq is.
-Proof. unfold from_instructions. now rewrite used_add_instructions. Qed.
-
 (** * C11 at program level *)
 
 Lemma add_is_add_assign a b : add a b = add_assign a b.
 Proof. reflexivity. Qed.
 
-Lemma body_add a b : body (add a b) = body a ++ body b.
+(** the implementation's test "a calibration was replaced": the calibration count shrank *)
+Definition replaced (a b : program) : bool :=
+  Nat.ltb (cal_count (add_assign_raw a b)) (cal_count a + cal_count b).
+
+Lemma add_unfold a b :
+  add a b = if replaced a b then rebuild_used (add_assign_raw a b) else add_assign_raw a b.
 Proof. reflexivity. Qed.
 
-Lemma used_add a b : used (add a b) = used a ++ used b.
-Proof. reflexivity. Qed.
+Lemma body_add a b : body (add a b) = body a ++ body b.
+Proof. rewrite add_unfold. destruct (replaced a b); reflexivity. Qed.
 
 Lemma defs_add_raw kd a b : defs kd (add a b) = extend (defs kd a) (defs kd b).
-Proof. unfold add, add_assign. now rewrite defs_mk. Qed.
+Proof.
+  rewrite add_unfold. destruct (replaced a b); [rewrite defs_rebuild_used|];
+    unfold add_assign_raw; now rewrite defs_mk.
+Qed.
+
+Lemma to_instructions_add_raw a b : to_instructions (add a b) = to_instructions (add_assign_raw a b).
+Proof. rewrite add_unfold. destruct (replaced a b); reflexivity. Qed.
+
+(** the cache of A+B: the union, or rebuilt from the listing if a calibration was replaced *)
+Lemma used_add a b :
+  used (add a b) =
+  if replaced a b then listing_gq (to_instructions (add a b)) else used a ++ used b.
+Proof.
+  rewrite to_instructions_add_raw. rewrite add_unfold. destruct (replaced a b); reflexivity.
+Qed.
 
 Lemma defs_add kd a b : WF a -> WF b -> defs kd (add a b) = merge (defs kd a) (defs kd b).
 Proof.
   intros [Ha _] [Hb _]. rewrite defs_add_raw. apply extend_merge; [apply Ha | apply Hb].
 Qed.
 
-Lemma used_add_union a b q : In q (used (add a b)) <-> In q (used a) \/ In q (used b).
-Proof. rewrite used_add. apply in_app_iff. Qed.
+Lemma used_add_union a b q :
+  replaced a b = false -> (In q (used (add a b)) <-> In q (used a) \/ In q (used b)).
+Proof. intros H. rewrite used_add, H. apply in_app_iff. Qed.
+
+Lemma replaced_empty_r a : replaced a empty = false.
+Proof.
+  unfold replaced, cal_count, add_assign_raw. cbn [cals mcals mk defs empty extend fold_left length].
+  rewrite Nat.add_0_r. apply Nat.ltb_irrefl.
+Qed.
+
+Lemma replaced_empty_l b : WF b -> replaced empty b = false.
+Proof.
+  intros [Hb _]. unfold replaced, cal_count, add_assign_raw. cbn [cals mcals mk defs empty length].
+  rewrite (extend_nil_l (cals b)) by apply (Hb KCal).
+  rewrite (extend_nil_l (mcals b)) by apply (Hb KMCal). cbn [Nat.add]. apply Nat.ltb_irrefl.
+Qed.
 
 Lemma add_empty_r a : add a empty = a.
 Proof.
-  apply program_ext.
-  - intros kd. rewrite defs_add_raw. now destruct kd.
-  - rewrite body_add. apply app_nil_r.
-  - rewrite used_add. apply app_nil_r.
+  rewrite add_unfold, replaced_empty_r. apply program_ext.
+  - intros kd. unfold add_assign_raw. rewrite defs_mk. now destruct kd.
+  - cbn [add_assign_raw body mk empty]. apply app_nil_r.
+  - cbn [add_assign_raw used mk empty]. apply app_nil_r.
 Qed.
 
 Lemma add_empty_l b : WF b -> add empty b = b.
 Proof.
-  intros [Hb _]. apply program_ext.
-  - intros kd. rewrite defs_add_raw. replace (defs kd empty) with (@nil (N * instr)) by now destruct kd.
+  intros Hw. rewrite add_unfold, (replaced_empty_l b Hw). destruct Hw as [Hb _]. apply program_ext.
+  - intros kd. unfold add_assign_raw. rewrite defs_mk.
+    replace (defs kd empty) with (@nil (N * instr)) by now destruct kd.
     apply extend_nil_l. apply Hb.
   - reflexivity.
   - reflexivity.
@@ -574,14 +638,17 @@ Proof. intros H1 H2 x. rewrite !in_app_iff, (H1 x), (H2 x). tauto. Qed.
 Definition Concat_ok (a b ab : obs) : Prop :=
   body_part (fst ab) = body_part (fst a) ++ body_part (fst b) /\
   (forall kd, kind_part kd (fst ab) = vals (merge (sel kd (fst a)) (sel kd (fst b)))) /\
-  (forall q, In q (snd ab) <-> In q (snd a) \/ In q (snd b)).
+  (if replaced_obs a b ab
+   then seteq (snd ab) (flat_map gq (fst ab))
+   else forall q, In q (snd ab) <-> In q (snd a) \/ In q (snd b)).
 
 Lemma chk_concat_sound a b ab : chk_concat a b ab = true -> Concat_ok a b ab.
 Proof.
-  unfold chk_concat, Concat_ok. rewrite !andb_true_iff, instrs_eqb_eq, forallb_forall, seteqb_seteq.
+  unfold chk_concat, Concat_ok. rewrite !andb_true_iff, instrs_eqb_eq, forallb_forall.
   intros [[H1 H2] H3]. split; [exact H1|]. split.
   - intros kd. apply instrs_eqb_eq. apply H2. apply in_all_kinds.
-  - intros q. rewrite (H3 q). apply in_app_iff.
+  - destruct (replaced_obs a b ab); apply seteqb_seteq in H3; [exact H3|].
+    intros q. rewrite (H3 q). apply in_app_iff.
 Qed.
 
 (** the model satisfies what the checker checks (so verdict 1 and 2 are consistent) *)
@@ -643,12 +710,31 @@ Proof.
   cbn [app]. now apply filter_body_body.
 Qed.
 
+Lemma cal_len_to_instructions p : WF p -> cal_len (to_instructions p) = cal_count p.
+Proof.
+  intros Hp. unfold cal_len, cal_count, kind_part. rewrite !sel_to_instructions by exact Hp.
+  cbn [defs]. unfold vals. now rewrite !map_length.
+Qed.
+
+Lemma cal_count_add a b : cal_count (add a b) = cal_count (add_assign_raw a b).
+Proof.
+  unfold cal_count. change (cals (add a b)) with (defs KCal (add a b)).
+  change (mcals (add a b)) with (defs KMCal (add a b)). rewrite !defs_add_raw.
+  unfold add_assign_raw. cbn [cals mcals mk]. reflexivity.
+Qed.
+
 Theorem model_concat_ok a b : WF a -> WF b -> Concat_ok (obs_of a) (obs_of b) (obs_of (add a b)).
 Proof.
   intros Ha Hb. assert (Hab := WF_add a b Ha Hb). unfold Concat_ok, obs_of. cbn [fst snd]. split; [|split].
   - rewrite !body_part_to_instructions by assumption. apply body_add.
   - intros kd. unfold kind_part. rewrite !sel_to_instructions by assumption. now rewrite defs_add.
-  - intros q. apply used_add_union.
+  - assert (Hr : replaced_obs (to_instructions a, used a) (to_instructions b, used b)
+                              (to_instructions (add a b), used (add a b)) = replaced a b).
+    { unfold replaced_obs, replaced. cbn [fst]. rewrite !cal_len_to_instructions by assumption.
+      now rewrite cal_count_add. }
+    rewrite Hr. destruct (replaced a b) eqn:E.
+    + rewrite used_add, E. apply seteq_refl.
+    + intros q. now apply used_add_union.
 Qed.
 
 (** * C08: what [build] (a fold of insert from the empty map) computes *)
@@ -782,9 +868,6 @@ Qed.
 Lemma body_roundtrip p : WF p -> body (from_instructions (to_instructions p)) = body p.
 Proof. intros Hp. rewrite body_from. now apply body_part_to_instructions. Qed.
 
-Lemma used_roundtrip p : used (from_instructions (to_instructions p)) = listing_gq (to_instructions p).
-Proof. apply used_from. Qed.
-
 Lemma listing_roundtrip p : WF p -> to_instructions (from_instructions (to_instructions p)) = to_instructions p.
 Proof.
   intros Hp. pose proof (body_roundtrip p Hp) as Hb.
@@ -806,14 +889,6 @@ Definition InvG (p : program) : Prop := seteq (used p) (listing_gq (to_instructi
 (** field-wise equality, the cache as a set *)
 Definition prog_equiv (p q : program) : Prop :=
   (forall kd, defs kd p = defs kd q) /\ body p = body q /\ seteq (used p) (used q).
-
-Lemma roundtrip_equiv p : WF p -> InvG p -> prog_equiv (from_instructions (to_instructions p)) p.
-Proof.
-  intros Hp Hi. split; [|split].
-  - intros kd. now apply defs_roundtrip.
-  - now apply body_roundtrip.
-  - rewrite used_roundtrip. now apply seteq_sym.
-Qed.
 
 Lemma instr_eqb_refl i : instr_eqb i i = true.
 Proof. now apply instr_eqb_eq. Qed.
@@ -985,20 +1060,31 @@ Proof.
     rewrite lookup_rev_NoDup by apply NoDup_keys_build. now rewrite lookup_build.
 Qed.
 
-(** concatenating two built programs is building the concatenated sequence *)
-Theorem add_from_from is1 is2 :
-  add (from_instructions is1) (from_instructions is2) = from_instructions (is1 ++ is2).
+(** concatenating two built programs is building the concatenated sequence: same maps, same body
+    (the caches agree as sets, [add_from_from_equiv] below) *)
+Lemma to_instructions_ext p q :
+  (forall kd, defs kd p = defs kd q) -> body p = body q -> to_instructions p = to_instructions q.
 Proof.
-  apply program_ext.
-  - intros kd. rewrite defs_add_raw, !defs_from, sel_app. unfold build at 3. rewrite extend_app.
-    fold (build (sel kd is1)). apply extend_build. apply NoDup_keys_build.
-  - rewrite body_add, !body_from. now rewrite filter_app.
-  - rewrite used_add, !used_from. now rewrite flat_map_app.
+  intros Hd Hb. rewrite !to_instructions_alt, Hb. f_equal. apply flat_map_ext_in. intros kd _. now rewrite Hd.
 Qed.
+
+Lemma add_from_from_defs kd is1 is2 :
+  defs kd (add (from_instructions is1) (from_instructions is2)) = defs kd (from_instructions (is1 ++ is2)).
+Proof.
+  rewrite defs_add_raw, !defs_from, sel_app. unfold build at 3. rewrite extend_app.
+  fold (build (sel kd is1)). apply extend_build. apply NoDup_keys_build.
+Qed.
+
+Lemma add_from_from_body is1 is2 :
+  body (add (from_instructions is1) (from_instructions is2)) = body (from_instructions (is1 ++ is2)).
+Proof. rewrite body_add, !body_from. now rewrite filter_app. Qed.
 
 Theorem to_instructions_concat is1 is2 :
   to_instructions (add (from_instructions is1) (from_instructions is2)) = listing_spec (is1 ++ is2).
-Proof. rewrite add_from_from. apply to_instructions_from. Qed.
+Proof.
+  rewrite <- to_instructions_from. apply to_instructions_ext;
+    [intros kd; apply add_from_from_defs | apply add_from_from_body].
+Qed.
 
 (** a redefinition replaces in place; a new key is appended *)
 Lemma defs_add_instruction_routed kd k p i :
@@ -1133,16 +1219,12 @@ Proof.
     + cbn [filter] in H. destruct (is_body i); [|contradiction]. destruct H as [H|[]]. now left.
 Qed.
 
-Lemma stale_add_nil p i kd k old :
-  stale_add p i = [] -> route i = Some (kd, k) -> lookup k (defs kd p) = Some old ->
-  incl (gq old) (gq i).
-Proof.
-  unfold stale_add. intros H Hr Hl. rewrite Hr, Hl in H.
-  destruct (subsetb (gq old) (gq i)) eqn:E; [now apply subsetb_incl | discriminate].
-Qed.
+Lemma gq_nil_not_cal i kd k : route i = Some (kd, k) -> is_cal_kind kd = false -> gq i = [].
+Proof. destruct i; cbn [route gq]; intros [= <- <-] H; try reflexivity; discriminate. Qed.
 
 Lemma GL_add_instruction p i :
-  WF p -> stale_add p i = [] ->
+  WF p ->
+  (forall kd k old, route i = Some (kd, k) -> lookup k (defs kd p) = Some old -> incl (gq old) (gq i)) ->
   seteq (listing_gq (to_instructions (add_instruction p i))) (listing_gq (to_instructions p) ++ gq i).
 Proof.
   intros Hp Hs x. rewrite in_app_iff, !in_listing_gq. split.
@@ -1158,7 +1240,7 @@ Proof.
                  --- apply in_to_instructions. left. exists kd.
                      rewrite (defs_add_instruction_routed kd k' p i Hr). apply in_vals. exists k'.
                      apply In_ins_self.
-                 --- apply (stale_add_nil p i kd k' j Hs Hr); [|exact Hx].
+                 --- apply (Hs kd k' j eq_refl); [|exact Hx].
                      apply In_lookup; [apply Hp | exact Hj].
               ** exists j. split; [|exact Hx]. apply in_to_instructions. left. exists kd.
                  rewrite (defs_add_instruction_routed kd k' p i Hr). apply in_vals. exists k.
@@ -1192,21 +1274,55 @@ Proof.
   destruct Hj as [->|Hj]; [now apply uncounted_nil | now apply Hc].
 Qed.
 
-Lemma Good_add_instruction p i :
-  Good p -> uncounted i = [] -> stale_add p i = [] -> Good (add_instruction p i).
+Lemma replaces_cal_false_old p i kd k old :
+  WF p -> replaces_cal p i = false -> route i = Some (kd, k) -> lookup k (defs kd p) = Some old ->
+  gq old = [].
 Proof.
-  intros [Hw [Hi Hc]] Hu Hs. split; [now apply WF_add_instruction|]. split; [|now apply Counted_add_instruction].
-  unfold InvG. rewrite used_add_instruction. eapply seteq_trans.
-  - apply seteq_app; [exact Hi | apply seteq_refl].
-  - apply seteq_sym. now apply GL_add_instruction.
+  intros Hw Hr Hi Hl. unfold replaces_cal in Hr. rewrite Hi in Hr.
+  assert (Hm : memN k (keys (defs kd p)) = true) by (apply memN_In; now apply lookup_Some_keys with old).
+  rewrite Hm, andb_true_r in Hr.
+  destruct (proj1 Hw kd) as [_ Hf]. rewrite Forall_forall in Hf.
+  specialize (Hf (k, old) (lookup_In _ _ _ Hl)). cbn [fst snd] in Hf.
+  now apply (gq_nil_not_cal old kd k).
+Qed.
+
+(** one addition keeps the cache in step with what [get_qubits] reports on the listing *)
+Lemma InvG_add_instruction p i : WF p -> InvG p -> InvG (add_instruction p i).
+Proof.
+  intros Hw Hi. unfold InvG. rewrite used_add_instruction. destruct (replaces_cal p i) eqn:E.
+  - apply seteq_refl.
+  - eapply seteq_trans.
+    + apply seteq_app; [exact Hi | apply seteq_refl].
+    + apply seteq_sym. apply GL_add_instruction; [exact Hw|].
+      intros kd k old Hr Hl. rewrite (replaces_cal_false_old p i kd k old Hw E Hr Hl).
+      intros x [].
+Qed.
+
+Lemma InvG_add_instructions is : forall p,
+  WF p -> InvG p -> InvG (add_instructions p is).
+Proof.
+  induction is as [|i t IH]; intros p Hw Hi; [exact Hi|].
+  change (add_instructions p (i :: t)) with (add_instructions (add_instruction p i) t).
+  apply IH; [now apply WF_add_instruction | now apply InvG_add_instruction].
+Qed.
+
+Lemma InvG_empty : InvG empty.
+Proof. intros x. reflexivity. Qed.
+
+Theorem InvG_from is : InvG (from_instructions is).
+Proof. apply InvG_add_instructions; [apply WF_empty | apply InvG_empty]. Qed.
+
+Lemma Good_add_instruction p i : Good p -> uncounted i = [] -> Good (add_instruction p i).
+Proof.
+  intros [Hw [Hi Hc]] Hu. split; [now apply WF_add_instruction|].
+  split; [now apply InvG_add_instruction | now apply Counted_add_instruction].
 Qed.
 
 Lemma Good_add_instructions is : forall p,
-  Good p -> hits_adds p is = [] -> Good (add_instructions p is).
+  Good p -> hits_adds is = [] -> Good (add_instructions p is).
 Proof.
   induction is as [|i t IH]; intros p Hg Hh; [exact Hg|].
   cbn [hits_adds] in Hh. apply app_eq_nil in Hh. destruct Hh as [Hu Hh].
-  apply app_eq_nil in Hh. destruct Hh as [Hs Hh].
   change (add_instructions p (i :: t)) with (add_instructions (add_instruction p i) t).
   apply IH; [now apply Good_add_instruction | exact Hh].
 Qed.
@@ -1235,18 +1351,9 @@ Proof.
   - rewrite body_add in H. apply in_app_or in H. destruct H as [H|H]; [left|right]; now right.
 Qed.
 
-Lemma stale_concat_nil a b kd k old v :
-  stale_concat a b = [] -> In (k, v) (defs kd b) -> lookup k (defs kd a) = Some old ->
-  incl (gq old) (gq v).
-Proof.
-  unfold stale_concat. intros H Hin Hl.
-  pose proof (flat_map_nil_inv _ _ H kd (in_all_kinds kd)) as H1. cbn beta in H1.
-  pose proof (flat_map_nil_inv _ _ H1 (k, v) Hin) as H2. cbn [fst snd] in H2. rewrite Hl in H2.
-  destruct (subsetb (gq old) (gq v)) eqn:E; [now apply subsetb_incl | discriminate].
-Qed.
-
 Lemma GL_add a b :
-  WF a -> WF b -> stale_concat a b = [] ->
+  WF a -> WF b ->
+  (forall kd k old v, In (k, v) (defs kd b) -> lookup k (defs kd a) = Some old -> incl (gq old) (gq v)) ->
   seteq (listing_gq (to_instructions (add a b)))
         (listing_gq (to_instructions a) ++ listing_gq (to_instructions b)).
 Proof.
@@ -1261,7 +1368,7 @@ Proof.
         -- exists v'. split.
            ++ apply in_to_instructions. left. exists kd. rewrite defs_add by assumption.
               apply in_vals. exists k. apply lookup_In. rewrite lookup_merge. now rewrite Elb.
-           ++ apply (stale_concat_nil a b kd k j v' Hs); [now apply lookup_In | exact Hla | exact Hx].
+           ++ apply (Hs kd k j v'); [now apply lookup_In | exact Hla | exact Hx].
         -- exists j. split; [|exact Hx]. apply in_to_instructions. left. exists kd.
            rewrite defs_add by assumption. apply in_vals. exists k. apply lookup_In.
            rewrite lookup_merge. now rewrite Elb.
@@ -1277,12 +1384,60 @@ Proof.
         apply in_or_app. now right.
 Qed.
 
-Lemma Good_add a b : Good a -> Good b -> stale_concat a b = [] -> Good (add a b).
+Lemma length_merge a b :
+  length (merge a b) = length a + length (filter (fun kv => negb (memN (fst kv) (keys a))) b).
+Proof. rewrite merge_unfold, app_length, map_length. reflexivity. Qed.
+
+Lemma filter_length_le' {A} (f : A -> bool) l : length (filter f l) <= length l.
+Proof. induction l as [|x t IH]; cbn [filter length]; [lia|]. destruct (f x); cbn [length]; lia. Qed.
+
+Lemma filter_length_full {A} (f : A -> bool) l :
+  length (filter f l) = length l -> forall x, In x l -> f x = true.
 Proof.
-  intros [Hwa [Hia Hca]] [Hwb [Hib Hcb]] Hs. split; [now apply WF_add|]. split.
-  - unfold InvG. rewrite used_add. eapply seteq_trans.
+  induction l as [|y t IH]; cbn [filter length]; intros H x Hx; [contradiction|].
+  destruct (f y) eqn:E; cbn [length] in H.
+  - destruct Hx as [->|Hx]; [exact E | apply IH; [lia | exact Hx]].
+  - pose proof (filter_length_le' f t). lia.
+Qed.
+
+(** no calibration count shrinkage = no calibration key of [b] is bound in [a] *)
+Lemma replaced_false_disjoint a b kd k v :
+  WF a -> WF b -> replaced a b = false -> is_cal_kind kd = true ->
+  In (k, v) (defs kd b) -> lookup k (defs kd a) = None.
+Proof.
+  intros Ha Hb Hr Hk Hin. unfold replaced, cal_count, add_assign_raw in Hr. cbn [cals mcals mk] in Hr.
+  apply Nat.ltb_ge in Hr.
+  rewrite (extend_merge (defs KCal a) (defs KCal b)) in Hr by (apply Ha || apply Hb).
+  rewrite (extend_merge (defs KMCal a) (defs KMCal b)) in Hr by (apply Ha || apply Hb).
+  rewrite !length_merge in Hr. cbn [defs] in Hr.
+  pose proof (filter_length_le' (fun kv => negb (memN (fst kv) (keys (cals a)))) (cals b)) as L1.
+  pose proof (filter_length_le' (fun kv => negb (memN (fst kv) (keys (mcals a)))) (mcals b)) as L2.
+  apply lookup_None. apply memN_false.
+  destruct kd; try discriminate; cbn [defs] in *.
+  - assert (E : length (filter (fun kv => negb (memN (fst kv) (keys (cals a)))) (cals b)) = length (cals b)) by lia.
+    pose proof (filter_length_full _ _ E (k, v) Hin) as H. cbn [fst] in H. now destruct (memN k (keys (cals a))).
+  - assert (E : length (filter (fun kv => negb (memN (fst kv) (keys (mcals a)))) (mcals b)) = length (mcals b)) by lia.
+    pose proof (filter_length_full _ _ E (k, v) Hin) as H. cbn [fst] in H. now destruct (memN k (keys (mcals a))).
+Qed.
+
+Lemma InvG_add a b : WF a -> WF b -> InvG a -> InvG b -> InvG (add a b).
+Proof.
+  intros Ha Hb Hia Hib. unfold InvG. rewrite used_add. destruct (replaced a b) eqn:E.
+  - apply seteq_refl.
+  - eapply seteq_trans.
     + apply seteq_app; [exact Hia | exact Hib].
-    + apply seteq_sym. now apply GL_add.
+    + apply seteq_sym. apply GL_add; [exact Ha | exact Hb|].
+      intros kd k old v Hin Hl. destruct (is_cal_kind kd) eqn:Ek.
+      * rewrite (replaced_false_disjoint a b kd k v Ha Hb E Ek Hin) in Hl. discriminate.
+      * destruct (proj1 Ha kd) as [_ Hf]. rewrite Forall_forall in Hf.
+        specialize (Hf (k, old) (lookup_In _ _ _ Hl)). cbn [fst snd] in Hf.
+        rewrite (gq_nil_not_cal old kd k Hf Ek). intros x [].
+Qed.
+
+Lemma Good_add a b : Good a -> Good b -> Good (add a b).
+Proof.
+  intros [Hwa [Hia Hca]] [Hwb [Hib Hcb]]. split; [now apply WF_add|]. split.
+  - now apply InvG_add.
   - unfold Counted in *. rewrite Forall_forall in *. intros j Hj.
     apply in_listing_add_assign in Hj; try assumption. destruct Hj; auto.
 Qed.
@@ -1290,11 +1445,26 @@ Qed.
 Lemma subsetb_refl l : subsetb l l = true.
 Proof. apply subsetb_incl. apply incl_refl. Qed.
 
-Lemma stale_concat_self p : WF p -> stale_concat p p = [].
+(** rebuilding from the listing: field-wise equal when the cache is in step *)
+Lemma roundtrip_equiv p : WF p -> InvG p -> prog_equiv (from_instructions (to_instructions p)) p.
 Proof.
-  intros Hp. unfold stale_concat. apply flat_map_nil_intro. intros kd _.
-  apply flat_map_nil_intro. intros [k v] Hin. cbn [fst snd].
-  rewrite (In_lookup k v (defs kd p)); [now rewrite subsetb_refl | apply Hp | exact Hin].
+  intros Hp Hi. split; [|split].
+  - intros kd. now apply defs_roundtrip.
+  - now apply body_roundtrip.
+  - eapply seteq_trans; [apply (InvG_from (to_instructions p))|].
+    rewrite listing_roundtrip by exact Hp. now apply seteq_sym.
+Qed.
+
+(** concatenating two built programs = building the concatenated sequence *)
+Theorem add_from_from_equiv is1 is2 :
+  prog_equiv (add (from_instructions is1) (from_instructions is2)) (from_instructions (is1 ++ is2)).
+Proof.
+  split; [intros kd; apply add_from_from_defs|]. split; [apply add_from_from_body|].
+  eapply seteq_trans.
+  - apply InvG_add; try apply WF_from_instructions; apply InvG_from.
+  - rewrite (to_instructions_ext _ (from_instructions (is1 ++ is2)));
+      [|intros kd; apply add_from_from_defs | apply add_from_from_body].
+    apply seteq_sym. apply InvG_from.
 Qed.
 
 (** ** Cache reset ([clone_without_body_instructions] and the inline copies of it) *)
@@ -1401,18 +1571,17 @@ Qed.
 Lemma Good_roundtrip p : Good p -> Good (from_instructions (to_instructions p)).
 Proof.
   intros [Hw [_ Hc]]. split; [apply WF_from_instructions|]. split.
-  - unfold InvG. rewrite used_roundtrip, listing_roundtrip by exact Hw. apply seteq_refl.
+  - apply InvG_from.
   - unfold Counted. now rewrite listing_roundtrip.
 Qed.
 
 (** ** Expansion-like operations *)
 
-Lemma hits_adds_uncounted p is : hits_adds p is = [] -> forall i, In i is -> uncounted i = [].
+Lemma hits_adds_uncounted is : hits_adds is = [] -> forall i, In i is -> uncounted i = [].
 Proof.
-  revert p. induction is as [|i t IH]; intros p Hh j Hj; [contradiction|].
+  induction is as [|i t IH]; intros Hh j Hj; [contradiction|].
   cbn [hits_adds] in Hh. apply app_eq_nil in Hh. destruct Hh as [Hu Hh].
-  apply app_eq_nil in Hh. destruct Hh as [_ Hh]. destruct Hj as [->|Hj]; [exact Hu|].
-  now apply (IH (add_instruction p i)).
+  destruct Hj as [->|Hj]; [exact Hu | now apply IH].
 Qed.
 
 Lemma Counted_add_instructions is : forall p,
@@ -1425,7 +1594,7 @@ Proof.
 Qed.
 
 Lemma Good_expand_calibrations p out :
-  Good p -> reset_hit (clone_without_body p) = [] -> hits_adds (clone_without_body p) out = [] ->
+  Good p -> reset_hit (clone_without_body p) = [] -> hits_adds out = [] ->
   Good (expand_calibrations p out).
 Proof.
   intros [Hw [_ Hc]] Hr Hh. unfold expand_calibrations. apply Good_add_instructions; [|exact Hh].
@@ -1435,7 +1604,7 @@ Qed.
 Lemma Good_expand_sequences p kg out :
   Good p ->
   reset_hit (clone_without_body (set_defs KGate (keep kg (gates p)) p)) = [] ->
-  hits_adds (clone_without_body (set_defs KGate (keep kg (gates p)) p)) out = [] ->
+  hits_adds out = [] ->
   Good (expand_sequences p kg out).
 Proof.
   intros [Hw [_ Hc]] Hr Hh. unfold expand_sequences. apply Good_add_instructions; [|exact Hh].
@@ -1467,20 +1636,43 @@ Proof.
   assert (existsb f l = true) by (apply existsb_exists; now exists x). congruence.
 Qed.
 
+Lemma is_cal_instr_false_gq i : is_cal_instr i = false -> is_body i = false -> gq i = [].
+Proof.
+  unfold is_cal_instr, is_body. destruct (route i) as [[kd k]|] eqn:Hr; [|discriminate].
+  intros Hc _. now apply (gq_nil_not_cal i kd k).
+Qed.
+
 Lemma gq_body_only out :
-  (forall i, In i out -> (negb (is_body i) && negb (match gq i with [] => true | _ => false end)) = false) ->
+  (forall i, In i out -> is_cal_instr i = false) ->
   seteq (listing_gq out) (listing_gq (filter is_body out)).
 Proof.
   intros H x. rewrite !in_listing_gq. split.
   - intros [i [Hi Hx]]. exists i. split; [|exact Hx]. apply filter_In. split; [exact Hi|].
-    specialize (H i Hi). destruct (is_body i); [reflexivity|]. cbn [negb andb] in H.
-    destruct (gq i); [contradiction | discriminate].
+    destruct (is_body i) eqn:E; [reflexivity|].
+    rewrite (is_cal_instr_false_gq i (H i Hi) E) in Hx. contradiction.
   - intros [i [Hi Hx]]. apply filter_In in Hi. exists i. tauto.
 Qed.
 
+Lemma replaces_cal_not_cal p i : is_cal_instr i = false -> replaces_cal p i = false.
+Proof.
+  unfold is_cal_instr, replaces_cal. destruct (route i) as [[kd k]|]; [|reflexivity].
+  intros ->. reflexivity.
+Qed.
+
+Lemma used_add_instructions_nocal is : forall p,
+  (forall i, In i is -> is_cal_instr i = false) ->
+  used (add_instructions p is) = used p ++ flat_map gq is.
+Proof.
+  induction is as [|i t IH]; intros p H.
+  - cbn. now rewrite app_nil_r.
+  - change (add_instructions p (i :: t)) with (add_instructions (add_instruction p i) t).
+    rewrite IH by (intros j Hj; apply H; now right).
+    rewrite used_add_instruction, (replaces_cal_not_cal p i) by (apply H; now left).
+    cbn [flat_map]. now rewrite app_assoc.
+Qed.
+
 Lemma Good_simplify p ke kf kw out :
-  Good p -> hits_adds (clone_without_body p) out = [] ->
-  existsb (fun i => negb (is_body i) && negb (match gq i with [] => true | _ => false end)) out = false ->
+  Good p -> hits_adds out = [] -> existsb is_cal_instr out = false ->
   Good (simplify p ke kf kw out).
 Proof.
   intros [Hw [_ Hc]] Hh Hx. unfold simplify.
@@ -1495,13 +1687,14 @@ Proof.
   assert (Hw3 : WF e3) by (apply WF_set_defs; [exact Hw2 | apply wf_alist_filter; apply (proj1 Hw2 KWave)]).
   assert (Hws : WF s) by (apply WF_set_defs; [exact Hw3 | apply wf_alist_filter; apply (proj1 Hw3 KExtern)]).
   assert (Hc0 : Counted e0).
-  { apply Counted_add_instructions; [now apply Counted_clone | now apply (hits_adds_uncounted _ _ Hh)]. }
+  { apply Counted_add_instructions; [now apply Counted_clone | now apply (hits_adds_uncounted _ Hh)]. }
+  assert (Hnc : forall i, In i out -> is_cal_instr i = false) by now apply existsb_false_forall.
   split; [exact Hws|]. split.
   - unfold InvG. rewrite GL_no_cal; [|exact Hws|reflexivity|reflexivity].
     change (body s) with (body e0). change (used s) with (used e0).
-    unfold e0, expand_calibrations. rewrite used_add_instructions, body_add_instructions.
+    unfold e0, expand_calibrations. rewrite (used_add_instructions_nocal out _ Hnc), body_add_instructions.
     cbn [clone_without_body used body mk app]. fold (listing_gq out).
-    apply gq_body_only. now apply existsb_false_forall.
+    now apply gq_body_only.
   - unfold Counted. rewrite Forall_forall. intros j Hj.
     assert (Hin : In j (to_instructions e0) \/ In j (to_instructions p)).
     { apply in_listing_set_defs_sub with (p := e3) in Hj; [|intros x; apply keep_sub].
@@ -1535,16 +1728,16 @@ Proof.
   intros Hg Hh. destruct o; cbn [step]; cbn [hits] in Hh.
   - change (add_instruction p i) with (add_instructions p [i]). now apply Good_add_instructions.
   - now apply Good_add_instructions.
-  - apply app_eq_nil in Hh. destruct Hh as [H1 H2]. change (add_assign p (from_instructions is)) with (add p (from_instructions is)).
-    apply Good_add; [exact Hg | | exact H2]. apply Good_add_instructions; [apply Good_empty | exact H1].
-  - apply Good_add; [exact Hg | exact Hg | apply stale_concat_self; apply Hg].
+  - change (add_assign p (from_instructions is)) with (add p (from_instructions is)).
+    apply Good_add; [exact Hg|]. apply Good_add_instructions; [apply Good_empty | exact Hh].
+  - now apply Good_add.
   - destruct Hg as [Hw [_ Hc]]. now apply Good_clone.
   - now apply Good_resolve.
   - apply app_eq_nil in Hh. destruct Hh as [H1 H2]. now apply Good_expand_calibrations.
   - apply app_eq_nil in Hh. destruct Hh as [H1 H2]. now apply Good_expand_sequences.
   - apply app_eq_nil in Hh. destruct Hh as [H1 H2].
     apply Good_simplify; [exact Hg | exact H1|].
-    destruct (existsb _ out); [discriminate | reflexivity].
+    destruct (existsb is_cal_instr out); [discriminate | reflexivity].
   - now apply Good_wrap_in_loop.
   - now apply Good_roundtrip.
   - rewrite into_is_to. now apply Good_roundtrip.
@@ -1604,9 +1797,85 @@ Proof.
   intros Hw Hc. split.
   - apply Good_Inv. exact (Good_resolve (rebuild_used p) (Good_rebuild_used p Hw Hc)).
   - apply Good_Inv. split; [apply WF_from_instructions|]. split.
-    + unfold InvG. rewrite used_roundtrip, listing_roundtrip by exact Hw. apply seteq_refl.
+    + apply InvG_from.
     + unfold Counted. now rewrite listing_roundtrip.
 Qed.
 
 Lemma not_inv_of_inv_b p : inv_b p = false -> ~ Inv p.
 Proof. intros H Hi. apply inv_b_Inv in Hi. congruence. Qed.
+
+(** restatements used by the pinned files *)
+Theorem kind_part_from kd is :
+  kind_part kd (to_instructions (from_instructions is)) = dedup_spec (sel kd is).
+Proof.
+  unfold kind_part. rewrite sel_to_instructions by apply WF_from_instructions.
+  rewrite defs_from. apply vals_build.
+Qed.
+
+Theorem roundtrip_fields p :
+  WF p ->
+  (forall kd, defs kd (from_instructions (to_instructions p)) = defs kd p) /\
+  body (from_instructions (to_instructions p)) = body p /\
+  to_instructions (from_instructions (to_instructions p)) = to_instructions p.
+Proof.
+  intros Hp. split; [intros kd; now apply defs_roundtrip|].
+  split; [now apply body_roundtrip | now apply listing_roundtrip].
+Qed.
+
+Theorem roundtrip_equal p :
+  WF p -> InvG p ->
+  prog_equiv (from_instructions (to_instructions p)) p /\
+  prog_eqb (from_instructions (to_instructions p)) p = true.
+Proof.
+  intros Hp Hi. pose proof (roundtrip_equiv p Hp Hi) as He. split; [exact He|].
+  now apply prog_equiv_eqb.
+Qed.
+
+Theorem keys_distinct_from is kd :
+  NoDup (keys (defs kd (from_instructions is))) /\
+  keys (defs kd (from_instructions is)) = first_keys (sel kd is).
+Proof. split; [apply WF_from_instructions | apply keys_from]. Qed.
+
+Theorem vals_defs_from is kd : vals (defs kd (from_instructions is)) = dedup_spec (sel kd is).
+Proof. rewrite defs_from. apply vals_build. Qed.
+
+Theorem lookup_defs_add a b kd k :
+  WF a -> WF b ->
+  lookup k (defs kd (add a b)) =
+  match lookup k (defs kd b) with Some v => Some v | None => lookup k (defs kd a) end.
+Proof. intros Ha Hb. rewrite (defs_add kd a b Ha Hb). apply lookup_merge. Qed.
+
+(** ** RESET frame matching depends on the content only (given the invariant) *)
+
+Lemma memN_congr q u u' : seteq u u' -> memN q u = memN q u'.
+Proof.
+  intros H. destruct (memN q u') eqn:E.
+  - apply memN_In. apply H. now apply memN_In.
+  - apply memN_false. intros Hin. apply H in Hin. apply memN_In in Hin. congruence.
+Qed.
+
+Lemma seteqb_congr a u u' : seteq u u' -> seteqb a u = seteqb a u'.
+Proof.
+  intros H. destruct (seteqb a u') eqn:E.
+  - apply seteqb_seteq. apply seteqb_seteq in E. eapply seteq_trans; [exact E | now apply seteq_sym].
+  - destruct (seteqb a u) eqn:E2; [|reflexivity]. apply seteqb_seteq in E2.
+    assert (seteqb a u' = true) by (apply seteqb_seteq; eapply seteq_trans; [exact E2 | exact H]).
+    congruence.
+Qed.
+
+Lemma existsb_ext {A} (f g : A -> bool) l : (forall x, f x = g x) -> existsb f l = existsb g l.
+Proof. intros H. induction l as [|x t IH]; cbn [existsb]; [reflexivity|]. now rewrite H, IH. Qed.
+
+Lemma frames_matching_congr u u' fr : seteq u u' -> frames_matching u fr = frames_matching u' fr.
+Proof.
+  intros H. unfold frames_matching. f_equal; f_equal; apply filter_ext; intros i.
+  - now apply seteqb_congr.
+  - rewrite (seteqb_congr _ u u' H). f_equal. apply existsb_ext. intros q. now apply memN_congr.
+Qed.
+
+Theorem reset_match_content p :
+  WF p -> Inv p -> reset_match p = content_reset_match (to_instructions p).
+Proof.
+  intros Hw Hi. unfold reset_match, content_reset_match, kind_part.
+  rewrite (sel_to_instructions KFrame p Hw). cbn [defs]. now apply frames_matching_congr.
+Qed.
